@@ -6,7 +6,7 @@
           When some member lies outside the quantifier the per-member fallback Overlap.check_fallback is applied instead of `true`:
           `false` without error ⇒ no two in-quantifier members are related; `true` ⇒ both lists non-empty.
    An error must come with `false` (documented "(false, err)"): any other payload is rejected (corr and prop false). *)
-From Coq Require Import ZArith String List Bool.
+From Coq Require Import ZArith String List Bool Lia.
 From SID Require Import Base Str Ids Wire ZoomCore ChangeZoom Radix Digits Overlap.
 Import ListNotations.
 Open Scope Z_scope.
@@ -202,6 +202,35 @@ Definition d_tree (args : list val) (obs : val) : verdict :=
   | _ => bad_case
   end.
 
+(* RadixOps(ops): an arbitrary interleaving of the two operations the detector performs on the third-party tree — op = [0; zoom; f'; x; y] is
+   Append, [1; zoom; f'; x; y] is IsOverlap — run on ONE real tree; observed = the answers of the queries in order.
+   corr: Radix.v's trie threaded through the same sequence (Overlap.run_ops) gives the same answers;
+   prop: each answer is the ancestor-or-equal relation against the keys appended BEFORE the query (Overlap.ops_ref; = run_ops by run_ops_spec).
+   Refused (bad_case): zoom outside 0..62, a coordinate outside [0, 2^zoom) (the masking is the business of the RadixTree entry), a query before
+   the first Append (the library indexes a nil slice there; the detector never does it). *)
+Definition as_rop (v : val) : option rop :=
+  match as_LZ v with
+  | Some [0; z; f; x; y] => Some (RAppend (z, f, x, y))
+  | Some [1; z; f; x; y] => Some (RQuery (z, f, x, y))
+  | _ => None
+  end.
+Definition rop_ok (o : rop) : bool := key_small (rop_key o) && in_range4b (rop_key o).
+Definition d_radix_ops (args : list val) (obs : val) : verdict :=
+  match args with
+  | [VL vops] =>
+      match all_opt (map as_rop vops) with
+      | Some ((RAppend _ :: _) as ops) =>
+          if negb (forallb rop_ok ops) then bad_case else
+          let m := run_ops rempty ops in
+          match as_LB obs with
+          | Some o => mkv (list_eqb Bool.eqb m o) (list_eqb Bool.eqb (ops_ref [] ops) o) "-"%string (VL (map VB m))
+          | None => match obs with VNil => bad_case | _ => mkv false false "-"%string (VL (map VB m)) end
+          end
+      | _ => bad_case
+      end
+  | _ => bad_case
+  end.
+
 Definition table_C05 : table :=
   [("CheckExtendedSpatialIdsOverlap"%string, fun _ => d_ext_pair);
    ("CheckExtendedSpatialIdsArrayOverlap"%string, fun _ => d_ext_array);
@@ -210,7 +239,8 @@ Definition table_C05 : table :=
    ("getSpatialIdAttrs"%string, fun _ => d_attrs);
    ("OverlapBoth"%string, fun _ => d_both);
    ("OverlapSequence"%string, fun _ => d_sequence);
-   ("RadixTree"%string, fun _ => d_tree)].
+   ("RadixTree"%string, fun _ => d_tree);
+   ("RadixOps"%string, fun _ => d_radix_ops)].
 
 (* the dispatch checkers are the proved checker on the property's quantifier *)
 Lemma forallb_validb es : forallb validb es = true -> forall i, In i es -> valid i.
@@ -272,4 +302,21 @@ Proof.
   - destruct (existsb (fun k => rel4b k q) (filter in_range4b K)) eqn:E; [|reflexivity]. cbn [implb].
     apply existsb_exists in E. destruct E as (k & Hk & R). apply filter_In in Hk. destruct Hk as [Hk Rk]. apply in_range4b_spec in Rk.
     apply overlap_spec. exists (tkey k). split; [now apply in_map|]. apply tkey_overlap_iff; auto. now apply rel4b_spec.
+Qed.
+
+(* the trie model passes the RadixOps checker: on accepted cases corr implies prop *)
+Theorem model_passes_radix_ops ops : forallb rop_ok ops = true -> list_eqb Bool.eqb (ops_ref [] ops) (run_ops rempty ops) = true.
+Proof.
+  intros H. rewrite run_ops_spec_empty.
+  - generalize (ops_ref [] ops). induction l as [|b r IH]; [reflexivity|]. cbn. now rewrite eqb_reflx, IH.
+  - intros o Ho. apply in_range4b_spec. pose proof (proj1 (forallb_forall _ _) H o Ho) as R. unfold rop_ok in R.
+    apply andb_true_iff in R. tauto.
+Qed.
+(* a sequence is judged step by step: the verdicts of a sequence after any prefix are the verdicts of the steps alone *)
+Theorem run_calls_app h oh cs os : length h = length oh ->
+  run_calls (h ++ cs) (oh ++ os) = match run_calls h oh, run_calls cs os with Some a, Some b => Some (a ++ b) | _, _ => None end.
+Proof.
+  revert oh. induction h as [|c h IH]; intros [|o oh] L; try discriminate.
+  - cbn. destruct (run_calls cs os); reflexivity.
+  - cbn [app run_calls]. rewrite IH by (cbn in L; lia). destruct (run_calls h oh), (run_calls cs os); reflexivity.
 Qed.
